@@ -4,7 +4,7 @@
    the commit of Model/Create.v).  The manifest *file name* (NNNN_<folder>_<UTC>Z.mhl) is not modelled: it is checked on
    the implementation by the oracle. *)
 From Coq Require Import Sorting.Sorted.
-From MHL Require Import Model.Commands Gen.Generated Proofs.BaseFacts Proofs.CommitFacts Proofs.HistFacts Proofs.FreshFacts.
+From MHL Require Import Model.Commands Gen.Generated Proofs.BaseFacts Proofs.CommitFacts Proofs.HistFacts Proofs.FreshFacts Model.Naming Proofs.NamingFacts.
 
 Theorem C06_commit_writes_after_commit : forall C cdig ser (old : hist C) doc p par,
   mkHist C (h_files C old ++ [mkMfile C (g_no doc) (ser doc) doc])
@@ -64,3 +64,22 @@ Example C06_three_commits :
   let mk := fun no => mkGen no [] None [] [] InPlace in
   map (mf_no N) (h_files N (commits N (fun c => [c]) (fun g => g_no g) (mkHist N [] (Some [])) [mk; mk; mk])) = [1; 2; 3]%N.
 Proof. reflexivity. Qed.
+
+(* THE FILE NAME: a generation is written as NNNN_<folder>_<stamp>.mhl (number zero-padded to at least four digits) and a
+   file of the ascmhl folder counts as a manifest when its stem matches ^(\d{4,})(?:_(.+))?$ (used with re.DOTALL), its
+   number being int() of the digits.  The loader recognises EVERY name the tool itself writes and recovers the number --
+   whatever the folder is called (digits, underscores, dots, blanks, line feeds ...) and whatever the stamp.  The regex,
+   the width, the separator and the flag are obligations on the regenerated constants. *)
+Theorem C06_own_names_are_recognised : forall n folder stamp, recognise (manifest_stem n folder stamp) = Some n.
+Proof. exact recognise_own_names. Qed.
+Print Assumptions C06_own_names_are_recognised.
+Theorem C06_naming_constants :
+  history_file_name_regex = [94; 40; 92; 100; 123; 52; 44; 125; 41; 40; 63; 58; 95; 40; 46; 43; 41; 41; 63; 36]%N /\
+  generation_number_width = 4%nat /\ generation_name_sep = [95%N] /\
+  history_file_name_flags = [114; 101; 46; 68; 79; 84; 65; 76; 76]%N.
+Proof. exact naming_constants. Qed.
+Example C06_name_examples :
+  manifest_stem 7 [97%N; 10%N; 98%N] [50%N] = [48; 48; 48; 55; 95; 97; 10; 98; 95; 50]%N /\
+  recognise [48; 48; 48; 55; 95; 97; 10; 98; 95; 50]%N = Some 7%N /\ recognise [48; 48; 55; 95; 97]%N = None /\
+  recognise [48; 48; 48; 55; 120]%N = None /\ manifest_stem 12345 [] [] = [49; 50; 51; 52; 53; 95; 95]%N.
+Proof. vm_compute. repeat split. Qed.
